@@ -280,6 +280,11 @@ c06b_run(const c06b_case *c, c06b_out *out) {
 			}
 			snap(st->fired_at_ret);
 			break;
+		case E_PEER_SHUT_WR:
+			if (gb_sp[ch][1] >= 0)
+				shutdown(gb_sp[ch][1], SHUT_WR);
+			snap(st->fired_at_ret);
+			break;
 		case E_SLEEP:
 			usleep((useconds_t)cm->arg * 1000);
 			snap(st->fired_at_ret);
